@@ -59,10 +59,10 @@ func findLifecycle(c *core.Ctx, r *core.Report, rule string) *lifecycleRoles {
 		}
 		l.initSite = oneSite(r, rule, "init-site@"+core.FnName(ex), "site reaching BEFORE_INIT+AFTER_INIT", initSites, c, ex)
 		if l.popSite != nil {
-			l.populator = l.popSite.Common().StaticCallee()
+			l.populator = c.ResolvedCallee(l.popSite.Common())
 		}
 		if l.initSite != nil {
-			l.initFn = l.initSite.Common().StaticCallee()
+			l.initFn = c.ResolvedCallee(l.initSite.Common())
 		}
 		if l.popSite != nil && l.populator == nil || l.initSite != nil && l.initFn == nil {
 			r.Undecided(rule, "role:Populator/InitFn", c.FnPos(ex), "population / initialization is not a static call from the creator")
